@@ -1,3 +1,58 @@
 From AB Require Import Desc Generated GeneratedWf.
+From AB Require Import Tree TreeDefs TreeProofs TreeProofs2 TreeProofs3 TreeProofs4 TreeRun TreeFacts.
+From Coq Require Import ZArith List Bool.
+Import ListNotations.
+
 Theorem C05_generated_classes_wf : forall c, In c classes -> wf_desc c = true.
 Proof. exact generated_wf_each. Qed.
+Theorem C05_classes_ok_generated : classes_ok classes.
+Proof. exact classes_ok_generated. Qed.
+Theorem C05_classes_ok_all : classes_ok all_classes.
+Proof. exact classes_ok_all. Qed.
+(* every extracted class declares a non-optional field *)
+Theorem C05_classes_anchored_all : classes_anchored all_classes.
+Proof. exact classes_anchored_all. Qed.
+
+(* after reattach(store) every model reachable from the node (incl. Repeated) lives in that store:
+   needs the scheme (_reattach covers every declared field and sets _token_store) *)
+Theorem C05_reattach_sids : forall cs new, classes_ok cs -> forall a, conforms cs a = true ->
+  forall s, In s (sids (reattach cs new a)) -> s = new.
+Proof. exact reattach_sids. Qed.
+(* ... and really depends on it: with a _reattach that skips one declared field a child stays in
+   the old store *)
+Theorem C05_reattach_sids_needs_scheme :
+  conforms [bad_reattach_cls] bad_reattach_node = true
+  /\ wf_tree bad_reattach_cls = false
+  /\ In 0%Z (sids (reattach [bad_reattach_cls] 7 bad_reattach_node)).
+Proof. exact reattach_sids_needs_wf. Qed.
+(* reattach changes no token: same leaves, same token list, same type (any node, any classes) *)
+Theorem C05_reattach_leaves : forall cs new a, leaves (reattach cs new a) = leaves a.
+Proof. exact reattach_leaves. Qed.
+Theorem C05_reattach_toks : forall cs new a, node_toks (reattach cs new a) = node_toks a.
+Proof. exact reattach_toks. Qed.
+Theorem C05_reattach_type : forall cs new a, node_type (reattach cs new a) = node_type a.
+Proof. exact reattach_type. Qed.
+
+(* first_token / last_token of a conforming node always exist and are leaves of that node *)
+Theorem C05_border_total : forall cs, classes_ok cs -> classes_anchored cs ->
+  forall n fuel sd, (depth n < fuel)%nat -> conforms cs n = true ->
+  exists t, border cs fuel sd n = Some t /\ In t (leaves n).
+Proof. exact border_total. Qed.
+(* a re-attached node (what pop() + insertion produce) is again a conforming tree, and its
+   first/last token are leaves of the node *)
+Theorem C05_reattach_conforms : forall cs new a,
+  conforms cs a = true -> conforms cs (reattach cs new a) = true.
+Proof. exact reattach_conforms. Qed.
+Theorem C05_reattach_border : forall cs new, classes_ok cs -> classes_anchored cs ->
+  forall n fuel sd, (depth (reattach cs new n) < fuel)%nat -> conforms cs n = true ->
+  exists t, border cs fuel sd (reattach cs new n) = Some t /\ In t (leaves n).
+Proof. exact reattach_border_total. Qed.
+
+Example C05_hyps :
+  conforms classes ex_open = true /\ conforms all_classes ex_open_num = true
+  /\ depth ex_open_num = 5%nat
+  /\ sids ex_open_num = [0; 0; 0; 0; 0; 0; 0; 0]%Z
+  /\ sids (reattach all_classes 7 ex_open_num) = [7; 7; 7; 7; 7; 7; 7; 7]%Z
+  /\ option_map k_id (border all_classes 64 SFirst ex_open_num) = Some 1%Z
+  /\ option_map k_id (border all_classes 64 SLast ex_open_num) = Some 23%Z.
+Proof. vm_compute. auto 10. Qed.
